@@ -164,3 +164,53 @@ func VerifC16_tags() {
 	}
 	verifReached("tags done")
 }
+
+// StickyMemberMetadata.ReadFrom grows its slices by capacity so that one value can be decoded
+// into repeatedly (the sticky balancer decodes every member's user data). Three well-formed
+// messages of independent shapes (1..3 assignments x 0/1/3 partitions, symbolic partition
+// numbers and generation) are decoded one after another into the SAME value, alternating
+// ReadFrom/UnsafeReadFrom: each decode succeeds and leaves exactly what a decode into a fresh
+// value gives — no panic, no stale or missing elements.
+func VerifC16_stickyMetadataReuse() {
+	var reused StickyMemberMetadata
+	for round := 0; round < 3; round++ {
+		nA := 1 + verifChoose(3)
+		nP := []int{0, 1, 3}[verifChoose(3)]
+		var src StickyMemberMetadata
+		for a := 0; a < nA; a++ {
+			ca := StickyMemberMetadataCurrentAssignment{Topic: []string{"a", "bb", "ccc"}[a]}
+			for p := 0; p < nP; p++ {
+				ca.Partitions = append(ca.Partitions, verifNondetInt32("partition"))
+			}
+			src.CurrentAssignment = append(src.CurrentAssignment, ca)
+		}
+		src.Generation = verifNondetInt32("generation")
+		verifAssume(src.Generation != -1)
+		wire := src.AppendTo(nil)
+		var err error
+		if round%2 == 0 {
+			err = reused.ReadFrom(wire)
+		} else {
+			err = reused.UnsafeReadFrom(wire)
+		}
+		verifAssert(err == nil, "a well-formed sticky metadata message decodes into a reused value")
+		ok := len(reused.CurrentAssignment) == nA
+		verifAssert(ok, "decoding into a reused value yields exactly the message's assignments")
+		if !ok {
+			return
+		}
+		same := reused.Generation == src.Generation
+		for a := 0; a < nA; a++ {
+			got := reused.CurrentAssignment[a]
+			if got.Topic != src.CurrentAssignment[a].Topic || len(got.Partitions) != nP {
+				verifFail("decoding into a reused value yields the message's topics and partition counts")
+				return
+			}
+			for p := 0; p < nP; p++ {
+				same = verifAnd(same, got.Partitions[p] == src.CurrentAssignment[a].Partitions[p])
+			}
+		}
+		verifAssert(same, "decoding into a reused value yields the message's partitions and generation")
+	}
+	verifReached("c16-sticky-reuse")
+}
